@@ -2,7 +2,7 @@
 From RecordUpdate Require Import RecordUpdate.
 From Coq Require Import List ZArith NArith Lia Bool Arith.
 From Coq.Strings Require Import Byte.
-From L3 Require Import Msgid Conn ConnProofs ConnAccount ConnLin2 ConnC04 ConnNoWrap ConnAbandon.
+From L3 Require Import ConnEnded Msgid Conn ConnProofs ConnAccount ConnLin2 ConnC04 ConnNoWrap ConnAbandon.
 Import ListNotations.
 
 Theorem c13_below_wrap : forall evs : list ev, Forall wf_ev evs -> Z.of_nat (length evs) < MAX -> quiescent (run repaired evs) = true -> clean (run repaired evs) = true.
@@ -29,6 +29,12 @@ Proof. exact Conn.c13_refuted_F25. Qed.
 Theorem c13_repaired_F25 : c13 (run repaired h25) = true /\ inuse (run repaired h25) = [] /\ smap (run repaired h25) = [].
 Proof. exact Conn.c13_repaired_F25. Qed.
 
+Theorem c13_dead_connection : forall evs : list ev, is_running (run repaired evs) = false -> forallb op_finished (ops (run repaired evs)) = true -> inuse (run repaired evs) = [].
+Proof. exact ConnEnded.c13_dead_connection. Qed.
+
+Theorem c13_refuted_F31 : let s := run all_but_31 (DrvEnd EndedOk :: repeat (Start KSingle None) 10) in is_running s = false /\ forallb op_finished (ops s) = true /\ length (inuse s) = 10%nat.
+Proof. exact ConnEnded.c13_refuted_F31. Qed.
+
 Print Assumptions c13_below_wrap.
 Print Assumptions c13_all_schedules_partial.
 Print Assumptions c13_hypotheses_met.
@@ -36,3 +42,5 @@ Print Assumptions c13_abandon_single.
 Print Assumptions c13_abandon_search.
 Print Assumptions c13_refuted_F25.
 Print Assumptions c13_repaired_F25.
+Print Assumptions c13_dead_connection.
+Print Assumptions c13_refuted_F31.
